@@ -169,8 +169,10 @@ def h_retarget(eng, fmt, pie, a_int, b_int, request, reverse=False, return_edges
     fwd = _auxdata.symbol_forwarding.get_or_insert(m)
     F1 = gtirb.Symbol("F1", payload=gtirb.ProxyBlock(module=m), module=m)
     F2 = gtirb.Symbol("F2", payload=gtirb.ProxyBlock(module=m), module=m)
+    F3 = gtirb.Symbol("F3", payload=gtirb.ProxyBlock(module=m), module=m)
     fwd[F1] = A
     fwd[F2] = T
+    fwd[F3] = A  # several copies forwarding to one symbol (environ / __environ / _environ)
     funcs = gtirb_functions.Function.build_functions(m)
     ctx = RewritingContext(m, funcs, expensive_assertions=False)
     # ---- invalid requests ---------------------------------------------------------------
@@ -243,7 +245,8 @@ def h_retarget(eng, fmt, pie, a_int, b_int, request, reverse=False, return_edges
     want_syms = [NULL, syms[mapping.get("A", "A")], syms[mapping.get("A", "A")], syms[mapping.get("T", "T")]]
     eng.check([d[2] for d in got] == want_syms and [d[0] for d in got] == [".cfi_startproc", ".cfi_personality", ".cfi_lsda", ".cfi_lsda"]
               and [list(d[1]) for d in got] == [[], [0x9B], [0x1B], [0x1B]], "CFI directives after retargeting: %r" % (got,))
-    eng.check(fwd[F1] is syms[mapping.get("A", "A")] and fwd[F2] is syms[mapping.get("T", "T")],
+    eng.check(fwd[F1] is syms[mapping.get("A", "A")] and fwd[F2] is syms[mapping.get("T", "T")]
+              and fwd[F3] is syms[mapping.get("A", "A")] and len(fwd) == 3,
               "symbolForwarding targets after retargeting")
     # ---- control flow ------------------------------------------------------------------------------
     def edges_of(b, typ):
